@@ -396,6 +396,15 @@ def add_relations(rng, prog, feat):
         if x == y:
             x, y = rng.sample(ids, 2)
         cands.append({"kind": "conflict", "a": x, "b": y, "prio": rng.choice(["U", "L", "R"]) if f["prio"] else "U"})
+    if nconf and rng.random() < 0.8:
+        # two bodies of different modules, each inside an alternative of its module's control structure, with
+        # different alternative numbers: structurally "the same place" in two unrelated modules
+        wrapped = [i for i in ids if a.bodies[i].pos and a.bodies[i].parent is None]
+        pairs = [(x, y) for x in wrapped for y in wrapped if a.bodies[x].mod != a.bodies[y].mod
+                 and a.bodies[x].pos[0][1] != a.bodies[y].pos[0][1]]
+        if pairs:
+            x, y = rng.choice(pairs)
+            cands.insert(0, {"kind": "conflict", "a": x, "b": y, "prio": rng.choice(["U", "L", "R"]) if f["prio"] else "U"})
     for _ in range(nbef):
         x, y = rng.sample(ids, 2)
         if a.bodies[x].order > a.bodies[y].order:
@@ -422,11 +431,29 @@ def add_relations(rng, prog, feat):
                         opts.append((x, y))
         if opts:
             # prefer pairs where one side has further callers: the relation is then also lifted to (T, T') pairs
-            w = [1 + 3 * (len(a.trans_for.get(x, [])) + len(a.trans_for.get(y, [])) - 2) for x, y in opts]
+            # (and most of all when a side is nonexclusive: no implicit conflict covers those pairs)
+            w = [(1 + 3 * (len(a.trans_for.get(x, [])) + len(a.trans_for.get(y, [])) - 2)) * (12 if a.nonex(x) or a.nonex(y) else 1)
+                 for x, y in opts]
             x, y = rng.choices(opts, w)[0]
             if rng.random() < 0.5:
                 x, y = y, x
+            if a.nonex(x) and not a.nonex(y) and rng.random() < 0.6:
+                x, y = y, x  # more often than not the nonexclusive side is the second argument of add_conflict
             cands.insert(0, {"kind": "conflict", "a": x, "b": y, "prio": rng.choice(["U", "L", "R"] if not f["prio"] else ["L", "R", "L", "R", "U"])})
+            nonex_side = [z for z in (y, x) if a.nonex(z)][:1]
+            if nonex_side and rng.random() < 0.8:
+                # a further transaction that calls only the nonexclusive side: it conflicts with the transaction that
+                # uses both sides through the explicit relation alone (no shared exclusive method covers the pair)
+                z = rng.choice(nonex_side)
+                n = 0
+                while f"i{n}" in prog["inputs"]:
+                    n += 1
+                prog["inputs"][f"i{n}"] = 1
+                call = {"sid": f"y{len(a.sites)}", "m": z, "k": rng.getrandbits(4), "arg": None, "en": None}
+                k = 0
+                while f"u{k}" in a.bodies:
+                    k += 1
+                prog["tree"][rng.randrange(len(prog["tree"]))].append(["T", {"id": f"u{k}", "ready": f"i{n}", "body": [["C", call]]}])
     # a relation may be declared on a provide() alias of a method instead of the method itself
     als = {}
     for al in prog.get("aliases", []):
